@@ -3,9 +3,14 @@ package worlds
 import (
 	"errors"
 	"fmt"
+	"strings"
+	stdtime "time"
+
+	"github.com/bradenaw/juniper/stream"
 
 	"verifsim/context"
 	"verifsim/sim"
+	"verifsim/time"
 )
 
 // Call is one library call made by a harness party, stamped with global event sequence numbers.
@@ -88,6 +93,9 @@ type Ctx struct {
 	Cancelled bool
 	CancelSeq uint64
 	CancelAt  int64
+	// HasDeadline/DeadlineAt: the context expires by itself at this simulated time (ns since start).
+	HasDeadline bool
+	DeadlineAt  int64
 }
 
 // NewCtx derives a cancellable context from parent (nil: from context.Background()).
@@ -117,6 +125,9 @@ func (c *Ctx) ExpiredAt() (int64, bool) {
 	for x := c; x != nil; x = x.Parent {
 		if x.Cancelled && (!ok || x.CancelAt < at) {
 			at, ok = x.CancelAt, true
+		}
+		if x.HasDeadline && int64(sim.Now()) >= x.DeadlineAt && (!ok || x.DeadlineAt < at) {
+			at, ok = x.DeadlineAt, true
 		}
 	}
 	return at, ok
@@ -153,4 +164,179 @@ func Spin(k int, site string) {
 	for i := 0; i < k; i++ {
 		sim.Yield(site)
 	}
+}
+
+// ---- instrumented source stream -----------------------------------------------------------------
+
+// Src is a scripted, instrumented stream.Stream[int]: it yields Items in order, may fail, may be
+// slow, honours (or ignores) its context, and logs every Next/Close with event numbers so that
+// ownership oracles (closed exactly once, never used after, no overlap) can be evaluated.
+type Src struct {
+	R     *R
+	Name  string
+	Items []int
+	// ErrAt >= 0: after ErrAt items every Next fails with Err (permanent).
+	ErrAt int
+	Err   error
+	// Transient[p]: the first Next at position p fails with this error, the retry succeeds.
+	Transient map[int]error
+	// Delay[p]: simulated time Next takes before handing over item p (or the end/error at p).
+	Delay map[int]time.Duration
+	// BlockAt >= 0: Next at position BlockAt blocks until its context is done.
+	BlockAt int
+
+	Pos        int
+	NextCalls  int
+	NextActive int
+	Closed     []uint64 // event numbers of Close invocations
+	HandOver   []int64  // simulated time (ns) at which item i was handed over
+	HandSeq    []uint64
+	EndSeq     uint64 // event number at which End/the permanent error was first reported (0: not yet)
+	EndAt      int64
+	Violations []string // ownership violations observed by the source itself: kind strings
+	LastNextRet uint64
+}
+
+func NewSrc(r *R, name string, items []int) *Src {
+	return &Src{R: r, Name: name, Items: items, ErrAt: -1, BlockAt: -1}
+}
+
+func (s *Src) violate(kind string) {
+	s.Violations = append(s.Violations, kind)
+	s.R.Logf("source %s: OWNERSHIP %s", s.Name, kind)
+}
+
+// Next implements stream.Stream[int].
+func (s *Src) Next(ctx context.Context) (int, error) {
+	if len(s.Closed) > 0 {
+		s.violate("next-after-close")
+	}
+	if s.NextActive > 0 {
+		s.violate("concurrent-next")
+	}
+	s.NextActive++
+	s.NextCalls++
+	defer func() { s.NextActive--; s.LastNextRet = sim.Seq() }()
+	sim.Yield("src.Next:" + s.Name)
+	if err := ctx.Err(); err != nil {
+		s.R.Logf("source %s: Next -> %v (context already done)", s.Name, err)
+		return 0, err
+	}
+	p := s.Pos
+	if s.BlockAt == p {
+		s.R.Fault("src_slow")
+		if !WaitDone(ctx, -1, "src.block:"+s.Name) {
+			return 0, ctx.Err()
+		}
+	}
+	if d, ok := s.Delay[p]; ok && d > 0 {
+		delete(s.Delay, p)
+		if !WaitDone(ctx, d, "src.delay:"+s.Name) {
+			s.R.Logf("source %s: Next -> %v (context done while waiting)", s.Name, ctx.Err())
+			return 0, ctx.Err()
+		}
+	}
+	if e, ok := s.Transient[p]; ok {
+		delete(s.Transient, p)
+		s.R.Fault("src_transient")
+		s.R.Logf("source %s: Next -> transient %v at position %d", s.Name, e, p)
+		return 0, e
+	}
+	if s.ErrAt >= 0 && p >= s.ErrAt {
+		if s.EndSeq == 0 {
+			s.EndSeq = sim.Seq()
+			s.EndAt = int64(sim.Now())
+			s.R.Fault("src_error")
+		}
+		s.R.Logf("source %s: Next -> error %v at position %d", s.Name, s.Err, p)
+		return 0, s.Err
+	}
+	if p >= len(s.Items) {
+		if s.EndSeq == 0 {
+			s.EndSeq = sim.Seq()
+			s.EndAt = int64(sim.Now())
+		}
+		s.R.Logf("source %s: Next -> End", s.Name)
+		return 0, stream.End
+	}
+	s.Pos++
+	s.HandOver = append(s.HandOver, int64(sim.Now()))
+	s.HandSeq = append(s.HandSeq, sim.Seq())
+	s.R.Logf("source %s: Next -> item %d (position %d)", s.Name, s.Items[p], p)
+	return s.Items[p], nil
+}
+
+// Close implements stream.Stream[int].
+func (s *Src) Close() {
+	if sim.Tearing() {
+		return
+	}
+	if s.NextActive > 0 {
+		s.violate("close-during-next")
+	}
+	if len(s.Closed) > 0 {
+		s.violate("double-close")
+	}
+	s.Closed = append(s.Closed, sim.Seq())
+	s.R.Logf("source %s: Close (#%d)", s.Name, len(s.Closed))
+	sim.Yield("src.Close:" + s.Name)
+}
+
+// WaitDone waits for d of simulated time (d < 0: for ever) or until ctx is done, whichever is
+// first; it reports whether the full time elapsed.
+func WaitDone(ctx context.Context, d time.Duration, site string) bool {
+	t := sim.Pre(site)
+	var tc <-chan time.Time
+	var tm *stdtime.Timer
+	if d >= 0 {
+		tm = stdtime.NewTimer(d)
+		tc = tm.C
+	}
+	sim.BeginOp(t)
+	ok := false
+	select {
+	case <-tc:
+		ok = true
+	case <-ctx.Done():
+		if tm != nil {
+			tm.Stop()
+		}
+	case <-sim.KillC(t):
+		if tm != nil {
+			tm.Stop()
+		}
+		sim.Die()
+	}
+	sim.EndOp(t)
+	return ok
+}
+
+// NewDeadlineCtx derives a context that expires after d of simulated time.
+func NewDeadlineCtx(parent *Ctx, name string, d time.Duration) *Ctx {
+	var pc context.Context = context.Background()
+	if parent != nil {
+		pc = parent.C
+	}
+	c, cancel := context.WithTimeout(pc, d)
+	return &Ctx{Name: name, C: c, cancel: cancel, Parent: parent, HasDeadline: true, DeadlineAt: int64(sim.Now() + d)}
+}
+
+// LibraryTasks returns the live tasks that were started by library code (through a rewritten go
+// statement or a timer), i.e. not by the harness.
+func LibraryTasks() []*sim.Task {
+	var out []*sim.Task
+	for _, t := range sim.LiveTasks() {
+		if strings.Contains(t.Name, ".go:") || strings.HasPrefix(t.Name, "time.AfterFunc") {
+			out = append(out, t)
+		}
+	}
+	return out
+}
+
+func taskNames(ts []*sim.Task) string {
+	var s []string
+	for _, t := range ts {
+		s = append(s, fmt.Sprintf("%v@%s", t, t.Site()))
+	}
+	return strings.Join(s, ", ")
 }
